@@ -79,3 +79,11 @@ def applyAxpy [Zero α] [One α] [Add α] [Mul α] [Div α] (tiny : α → Bool)
 
 end Cscr
 end FeatModel.LA
+
+namespace FeatModel.LA.Cscr
+/-- the instances the driver runs (core `Rat`, eps = 2^-52 like `Q` in the harness) -/
+def applyQ (A : Cscr Rat) (x r : Array Rat) (transposed : Bool) : Option (Array Rat) :=
+  A.apply (tinyRat epsQ) x r transposed
+def applyAxpyQ (A : Cscr Rat) (x y r : Array Rat) (alpha : Rat) (alias transposed : Bool) : Option (Array Rat) :=
+  A.applyAxpy (tinyRat epsQ) x y r alpha alias transposed
+end FeatModel.LA.Cscr
